@@ -81,6 +81,7 @@ StepFails(e, p, ps, ed, ud, ta, tlb, li, da, srp, at) ==
     \cup Fail("C12_DeleteJustified", C12_DeleteJustifiedStep(c, dels, p.pods, s.pods, ps, s.now, EverOf(s), SuccOf(s)))
     \cup Fail("C12_ForceGate", C12_ForceGateStep(c, Range(e.fdels), p.pods, ps, s.now))
     \cup Fail("C13_Order", C13_OrderStep(p.job, s.job, s.pods))
+    \cup Fail("C13_OrderAll", C13_OrderAllStep(p.job, s.job, s.pods))
     \cup Fail("C13_TTLNotEarly", C13_TTLNotEarlyStep(c, p.job, s.job, ta, ud, da, tlb))
 
 Init == l = 1 /\ pass = NoPass /\ edited = FALSE /\ udel = FALSE /\ ttlAt = 0 /\ ttlLB = 0 /\ taint = "" /\ admTruth = FALSE /\ listed = {} /\ succRec = {} /\ doneAt = 0 /\ hf = FALSE /\ viol = {}
@@ -102,11 +103,13 @@ Next ==
            at == IF reset THEN FALSE
                  ELSE admTruth \/ (e.ev = "Step" /\ e.op = "create/pods" /\ e.err = "AlreadyExists"
                                     /\ \E q \in Range(p.pods) : q.name = e.key /\ ~q.mine)
+                               \/ (e.ev = "Step" /\ e.op = "create/pods" /\ e.err = "Invalid")     \* the API server refused the task for good
            recs == {[name |-> r.name, idx |-> r.idx, retry |-> r.retry] : r \in Range(s.job.refs)}
            li == IF reset THEN recs ELSE listed \cup recs
            sr == (IF reset THEN {} ELSE succRec) \cup {r.idx : r \in {x \in Range(s.job.refs) : x.res = "Succeeded"}}
            over == \/ /\ s.job.ex /\ s.job.started /\ ~\E q \in Mine(s.pods) : Alive(q)
-                      /\ (s.job.adm \/ at \/ (s.job.kill # 0 /\ s.job.kill <= s.now) \/ DecidedTruth(e.cfg, s.pods, EverOf(s), SuccOf(s)))
+                      /\ ((s.job.kill # 0 /\ s.job.kill <= s.now) \/ DecidedTruth(e.cfg, s.pods, EverOf(s), SuccOf(s)))
+                   \/ (s.job.ex /\ s.job.started /\ (s.job.adm \/ at))   \* an admission error finishes the Job at once, whatever its other tasks do
                    \/ (s.job.ex /\ ~s.job.started /\ s.job.adm)      \* refused by the queue controller before it started: finished, no tasks
            da == IF reset THEN 0 ELSE IF doneAt = 0 /\ over THEN s.now ELSE doneAt
            fs == StateFails(e, sr) \cup (IF reset \/ l = 1 THEN {} ELSE StepFails(e, p, ps, ed, ud, ta, tlb, listed, da, succRec, at))
@@ -127,7 +130,9 @@ Next ==
           /\ viol' = viol \cup {r \in {[f |-> f, line |-> l, run |-> e.run, ev |-> e.ev, faulted |-> e.faulted, af |-> (hf \/ IsFault(e)),
                                  taint |-> tn, adm |-> at, foreign |-> e.cfg.foreign,
                                  \* the Job was complete for the creating pass only through tasks that exist in its Pod cache but are not recorded in the cached status
-                                 unrec |-> (f = "C08_Gates" /\ ps.j.ex /\ DecidedView(e.cfg, ps) /\ ~DecidedViewRec(e.cfg, ps))] : f \in fs} : ~\E v \in viol : v.f = r.f /\ v.run = r.run}   \* first failure of a formula in a run only
+                                 unrec |-> \/ (f = "C08_Gates" /\ ps.j.ex /\ DecidedView(e.cfg, ps) /\ ~DecidedViewRec(e.cfg, ps))
+                                           \* ... or the Job left while only tasks it never recorded still exist
+                                           \/ (f = "C13_OrderAll" /\ C13_OrderStep(p.job, s.job, s.pods))] : f \in fs} : ~\E v \in viol : v.f = r.f /\ v.run = r.run}   \* first failure of a formula in a run only
 Spec == Init /\ [][Next]_vars
 
 Report == (l = N + 1) => PrintT(<<"VERDICT", N, ToJson(viol)>>)
